@@ -98,3 +98,84 @@ def no_setters(repo: Repo, cname: str, names):
         ok = ci is not None and n in ci.getters and n not in ci.setters
         out.append((f"C19/read-only/{cname}.{n}", ok, "" if ok else "property has a setter or is missing", None, 0))
     return out
+
+
+# ---------------------------------------------------------------------------------------------- effect analysis (C13)
+LOCAL_CTORS = ("set", "list", "dict", "tuple", "sorted")
+LOCAL_METHODS = ("append", "add", "pop", "popleft", "extend", "update", "insert", "clear")
+PURE_BUILTINS = ("len", "hasattr", "getattr", "isinstance", "issubclass", "type", "list", "tuple", "set", "dict", "sorted",
+                 "repr", "hex", "id", "str", "int", "max", "min", "range", "enumerate", "bool", "iter", "next", "dir")
+
+
+def readonly_effects(repo: Repo, qualname: str, readonly_callees, owned_params=()):
+    """Frame condition `modifies nothing observable`, checked on the AST of one function:
+      - no attribute is assigned or deleted;
+      - item assignment / in-place methods only on containers the function allocated itself (names bound to a fresh
+        container expression) or on parameters declared as caller-private work containers (`owned_params`);
+      - every call is a user callback (a parameter), a pure built-in, a method of such a local container, a constructor of a
+        local container, or a function/method/property whose contract is read-only (`readonly_callees`: names).
+    -> list of (obligation id, ok, detail)"""
+    fi = repo.functions.get(qualname)
+    out = []
+    if fi is None:
+        return [(f"C13/effects/{qualname}", False, "function missing", None, 0)]
+    params = {a.arg for a in fi.node.args.args + fi.node.args.kwonlyargs + fi.node.args.posonlyargs}
+    local_containers = set(owned_params)
+    for node in ast.walk(fi.node):
+        if isinstance(node, (ast.Assign, ast.AnnAssign)) and getattr(node, "value", None) is not None:
+            tg = node.targets if isinstance(node, ast.Assign) else [node.target]
+            v = node.value
+            fresh = isinstance(v, (ast.List, ast.Dict, ast.Set, ast.ListComp, ast.Tuple)) or (
+                isinstance(v, ast.Call) and ((isinstance(v.func, ast.Name) and v.func.id in LOCAL_CTORS)
+                                              or (isinstance(v.func, ast.Attribute) and v.func.attr == "deque")))
+            if fresh:
+                for t in tg:
+                    if isinstance(t, ast.Name):
+                        local_containers.add(t.id)
+    n = 0
+
+    def bad(node, why):
+        nonlocal n
+        n += 1
+        out.append((f"C13/effects/{qualname}#{n}", False, f"line {node.lineno}: {why}", fi, node.lineno))
+    for node in ast.walk(fi.node):
+        if isinstance(node, (ast.Assign, ast.AugAssign, ast.AnnAssign)):
+            tg = node.targets if isinstance(node, ast.Assign) else [node.target]
+            for t in tg:
+                for sub in ast.walk(t):
+                    if isinstance(sub, ast.Attribute) and isinstance(sub.ctx, ast.Store):
+                        bad(node, f"assignment to attribute .{sub.attr}")
+                    if isinstance(sub, ast.Subscript) and isinstance(sub.ctx, ast.Store):
+                        if not (isinstance(sub.value, ast.Name) and sub.value.id in local_containers):
+                            bad(node, "item assignment on a container that is not local")
+        elif isinstance(node, ast.Delete):
+            for t in node.targets:
+                if isinstance(t, ast.Attribute):
+                    bad(node, f"del of attribute .{t.attr}")
+                if isinstance(t, ast.Subscript) and not (isinstance(t.value, ast.Name) and t.value.id in local_containers):
+                    bad(node, "del of an item of a container that is not local")
+        elif isinstance(node, ast.Call):
+            f = node.func
+            if isinstance(f, ast.Name):
+                if f.id in params or f.id in PURE_BUILTINS or f.id in readonly_callees or f.id in EXC_NAMES:
+                    continue
+                bad(node, f"call of {f.id}, which is not known to be read-only")
+            elif isinstance(f, ast.Attribute):
+                if isinstance(f.value, ast.Name) and f.value.id in local_containers and f.attr in LOCAL_METHODS + ("items", "values", "keys", "join", "get"):
+                    continue
+                if f.attr in readonly_callees or f.attr in ("deque", "join", "format", "items", "values", "keys", "match", "compile"):
+                    continue
+                if f.attr in LOCAL_METHODS:
+                    bad(node, f"in-place method .{f.attr} on something that is not a local container")
+                else:
+                    bad(node, f"call of .{f.attr}, which is not known to be read-only")
+            elif isinstance(f, ast.Subscript):
+                continue            # a user callback taken from an options table (A7)
+            else:
+                bad(node, "call of a computed callee")
+    if not out:
+        out.append((f"C13/effects/{qualname}", True, "", fi, fi.lineno))
+    return out
+
+
+EXC_NAMES = ("ValueError", "TypeError", "NotImplementedError", "AttributeError", "KeyError", "IndexError", "Exception")
